@@ -220,13 +220,13 @@ theorem appendBytes_rel {E : Ext} {l : signature.SignatureList} {o : util.EFIGUI
     AppRel l absL (l.AppendBytes E o d) ((absL l).appendBytes (absE E) (gw o) d) := by
   rw [signature.SignatureList.AppendBytes_eq]
   unfold Impl.SList.appendBytes
-  rw [absL_has hl ho]
   have hn : (absE E).norm (absL l).type d = normData E l.SignatureType d := absE_norm E hl.1 d
   simp only [hn]
   generalize normData E l.SignatureType d = d' at hd' hls ⊢
-  by_cases hm : (⟨o, d⟩ : signature.SignatureData) ∈ l.Signatures
+  rw [absL_has hl ho]
+  by_cases hm : (⟨o, d'⟩ : signature.SignatureData) ∈ l.Signatures
   · simp [hm, AppRel]
-  · have hm' : ¬ (decide ((⟨o, d⟩ : signature.SignatureData) ∈ l.Signatures) = true) := by
+  · have hm' : ¬ (decide ((⟨o, d'⟩ : signature.SignatureData) ∈ l.Signatures) = true) := by
       simpa using hm
     rw [if_neg hm, if_neg hm']
     by_cases hs : l.SignatureType = signature.CERT_SHA256_GUID ∧ d'.length ≠ 32
